@@ -210,6 +210,9 @@ type Region struct {
 	Off uint64 `json:"off"`
 	Len uint64 `json:"len"`
 	Why string `json:"why"`
+	// Fixed marks a fixed-size result: it is stored as a whole or not at all, so when it does not lie
+	// fully inside the memory it designates nothing (no partial store before the fault).
+	Fixed bool `json:"fixed,omitempty"`
 }
 
 // Env is what the output sizes of args_get/environ_get depend on.
@@ -236,23 +239,23 @@ func (f *Func) OutputRegions(args []uint64, mem []byte, env Env) []Region {
 		a := uint64(uint32(args[i]))
 		switch p.Role {
 		case PtrOut:
-			rs = append(rs, Region{a, uint64(p.Size), p.Name})
+			rs = append(rs, Region{Off: a, Len: uint64(p.Size), Why: p.Name, Fixed: true})
 		case PtrBufOut:
-			rs = append(rs, Region{a, uint64(uint32(args[p.Pair])), p.Name})
+			rs = append(rs, Region{Off: a, Len: uint64(uint32(args[p.Pair])), Why: p.Name})
 		case PtrEvents:
-			rs = append(rs, Region{a, uint64(uint32(args[p.Pair])) * EventSize, p.Name})
+			rs = append(rs, Region{Off: a, Len: uint64(uint32(args[p.Pair])) * EventSize, Why: p.Name})
 		case PtrVecOut:
 			n := env.Argc
 			if p.Vec == "environ" {
 				n = env.Environc
 			}
-			rs = append(rs, Region{a, uint64(n) * 4, p.Name})
+			rs = append(rs, Region{Off: a, Len: uint64(n) * 4, Why: p.Name})
 		case PtrVecBufOut:
 			n := env.ArgvBytes
 			if p.Vec == "environ" {
 				n = env.EnvironBytes
 			}
-			rs = append(rs, Region{a, uint64(n), p.Name})
+			rs = append(rs, Region{Off: a, Len: uint64(n), Why: p.Name})
 		case PtrIovsOut:
 			count := uint64(uint32(args[p.Pair]))
 			for k := uint64(0); k < count; k++ {
@@ -263,7 +266,7 @@ func (f *Func) OutputRegions(args []uint64, mem []byte, env Env) []Region {
 				buf := binary.LittleEndian.Uint32(mem[at:])
 				l := binary.LittleEndian.Uint32(mem[at+4:])
 				if l != 0 {
-					rs = append(rs, Region{uint64(buf), uint64(l), p.Name + "[]"})
+					rs = append(rs, Region{Off: uint64(buf), Len: uint64(l), Why: p.Name + "[]"})
 				}
 			}
 		}
